@@ -116,6 +116,10 @@ type Client struct {
 
 	grpcMuxerOnce sync.Once
 	grpcMuxer     *grpcmux.GRPCClientMuxer
+
+	// launched is set once Start has begun launching the plugin. A client
+	// launches its plugin at most once, even if that attempt failed.
+	launched bool
 }
 
 // NegotiatedVersion returns the protocol version negotiated with the server.
@@ -699,6 +703,11 @@ func (c *Client) Start() (addr net.Addr, err error) {
 	if c.unixSocketCfg.Group != "" {
 		cmd.Env = append(cmd.Env, fmt.Sprintf("%s=%s", EnvUnixSocketGroup, c.unixSocketCfg.Group))
 	}
+
+	if c.launched {
+		return nil, errors.New("plugin was already started once and cannot be started again")
+	}
+	c.launched = true
 
 	var runner runner.Runner
 	switch {
